@@ -25,6 +25,8 @@ mod affinity;
 mod attacher;
 mod cancel;
 mod future;
+#[cfg(feature = "verif")]
+mod verif;
 mod waker;
 
 pub mod fd;
